@@ -5,7 +5,8 @@ functions; the real pipeline (`get_validator`) through add_event on both backend
 ListBuilder.run_once with an instrumented set swapped in for the module-global lists, compared with the
 Lean sequence of atomic set operations.
 Search: decisions against an independent statement of each documented bound; a refused event leaves no
-trace (not stored, not broadcast) and carries a reason; during a refresh of an enforced allow list a
+trace (not stored, not broadcast) and carries a reason; submissions that are in flight at the same time (same id claimed by
+different payloads included) each get the verdict of their own payload; during a refresh of an enforced allow list a
 concurrent reader never sees it empty; after the refresh the lists hold exactly the expected keys.
 """
 import asyncio
@@ -271,6 +272,273 @@ def pipeline_cases(report, rng, tier):
         Config.oldest_event = 31536000
 
 
+# ---- concurrent submissions ------------------------------------------------------------------------
+#
+# The property speaks of EVERY submitted event; a relay receives submissions from many connections at once and the chain runs
+# in the loop's default executor (`get_validator`), so several validations really are in flight at the same time.  What a
+# submission is owed must not depend on what else is in flight: each payload gets the verdict (and, when refused, the reason)
+# that the configured chain gives to THAT payload.  The scenarios below submit groups of payloads from one event-loop turn
+# (asyncio.gather, optionally staggered by a few loop turns) to the real add_event of both backends: the same event twice,
+# different events (conforming and violating), and payloads that CLAIM the same id — a genuine event next to tampered copies
+# of it (one field replaced, id / sig kept), in every order.  Nothing an event says about itself (its id included) is
+# established before the chain has run on that very payload, so such groups are exactly where shared per-event state of the
+# pipeline (caches, coalescing, memoised verdicts keyed by a submitted field) would show.
+
+CONC_CHAIN = ["is_not_too_large", "is_recent", "is_certain_kind", "is_author_blacklisted", "is_not_hellthread", "is_signed"]
+# the policy validators come first so that a payload that violates a policy is refused with that policy's reason: the reasons of
+# the members of one group differ, and a reason that belongs to another member's payload is visible
+CONC_KINDS = [1, 7, 20001]          # a regular kind, the reaction kind, an ephemeral kind (broadcast, never written on LMDB)
+FORGERIES = ["content", "size", "kind", "kind-ephemeral", "old", "future", "pubkey", "hellthread"]
+SIGNED_VIOLATIONS = ["size", "kind", "old", "future", "blacklist", "hellthread"]
+
+
+def own_verdict(d, c):
+    """what the configured chain owes to THIS payload, stated without the pipeline: the list of the policies of CONC_CHAIN
+    it violates ([] = it must be admitted).  Signature / id by an independent NIP-01 computation (props.c03.facts_of)."""
+    from props.c03 import facts_of, authentic
+
+    e = types.SimpleNamespace(content=d["content"], created_at=d["created_at"], kind=d["kind"], pubkey=d["pubkey"],
+                              tags=d["tags"], id=d["id"])
+    bad = []
+    for name in CONC_CHAIN:
+        if name == "is_signed":
+            f = facts_of(d)
+            ok = authentic(f) and f["canonHex"]
+        else:
+            ok = spec(name, c, e)
+        if not ok:
+            bad.append(name)
+    return bad
+
+
+def _plain(d):
+    """an event object as plain JSON data (the LMDB codec returns tags as tuples)"""
+    import json
+
+    return json.loads(json.dumps(d))
+
+
+class ConcurrentRig:
+    """per backend a store that receives each group concurrently and a reference store that receives the same payloads one
+    after the other (the sequential behaviour, which is what the other scenarios of this file examine)"""
+
+    def __init__(self):
+        from nostr_relay.config import Config
+        from nostr_relay import validators
+        from aionostr.key import PrivateKey
+
+        validators.time = lambda: NOW
+        self.Config = Config
+        self._saved = {k: getattr(Config, k, None) for k in
+                       ("max_event_size", "oldest_event", "valid_kinds", "hellthread_limit", "pubkey_blacklist")}
+        self.sk, self.sk2, self.bad = PrivateKey(b"\x05" * 32), PrivateKey(b"\x06" * 32), PrivateKey(b"\x02" * 32)
+        self.c = types.SimpleNamespace(max_event_size=50, oldest_event=1000, valid_kinds=list(CONC_KINDS), hellthread_limit=3,
+                                       pubkey_blacklist=[self.bad.public_key.hex()])
+        for k, v in vars(self.c).items():
+            setattr(Config, k, v)
+        chain = ["nostr_relay.validators." + n for n in CONC_CHAIN]
+        # SQLite on files: an in-memory SQLite database is ONE connection shared by every task (StaticPool), so two add_event
+        # calls in flight would share one transaction — a property of that test set-up, not of the relay; a file gives each
+        # add_event its own pooled connection, as a deployed relay has
+        self.dir = common.scratch_dir("nrc16-")
+        self.pairs = [(KVStore(validators=chain), KVStore(validators=chain)),
+                      (SQLStore(validators=chain, url="sqlite+aiosqlite:///%s/main.sqlite3" % self.dir),
+                       SQLStore(validators=chain, url="sqlite+aiosqlite:///%s/ref.sqlite3" % self.dir))]
+        for main, _ in self.pairs:
+            self._record_broadcasts(main)
+        self.serial = 0
+        self.diverged = set()
+
+    @staticmethod
+    def _record_broadcasts(st):
+        st.seen = []
+        orig = st.storage.notify_all_connected
+
+        async def wrapped(event):
+            st.seen.append(_plain(event.to_json_object()))
+            return await orig(event)
+
+        st.storage.notify_all_connected = wrapped
+
+    def close(self):
+        import shutil
+
+        for pair in self.pairs:
+            for st in pair:
+                st.close()
+        shutil.rmtree(self.dir, ignore_errors=True)
+        for k, v in self._saved.items():
+            setattr(self.Config, k, v)
+
+    # -- payloads ------------------------------------------------------------------------------
+    def signed(self, rng, violation=None, kind=None, key=None):
+        """a genuinely signed event; `violation`: it violates that one policy (and is signed all the same)"""
+        from aionostr.event import Event
+
+        self.serial += 1
+        key = key or (self.bad if violation == "blacklist" else rng.choice([self.sk, self.sk2]))
+        kw = dict(pubkey=key.public_key.hex(), content="c%d" % self.serial, kind=kind or rng.choice(CONC_KINDS),
+                  created_at=NOW - rng.randrange(100), tags=[["t", "n%d" % self.serial]])
+        if violation == "size":
+            kw["content"] = "x" * rng.choice([51, 52, 500, 5000])
+        elif violation == "kind":
+            kw["kind"] = rng.choice([4, 2, 20002])
+        elif violation == "old":
+            kw["created_at"] = NOW - 1001 - rng.randrange(1000)
+        elif violation == "future":
+            kw["created_at"] = NOW + 3601 + rng.randrange(1000)
+        elif violation == "hellthread":
+            kw["kind"] = rng.choice([1, 7])
+            kw["tags"] = [["p", "%064x" % (i + 1)] for i in range(rng.choice([4, 5, 40]))]
+        ev = Event(**kw)
+        ev.sign(key.hex())
+        return ev.to_json_object()
+
+    def forged(self, rng, genuine, how):
+        """a copy of a genuine event with one field replaced: it still claims the genuine event's id and signature"""
+        d = {k: (list(v) if isinstance(v, list) else v) for k, v in genuine.items()}
+        if how == "content":
+            d["content"] = genuine["content"] + "!"
+        elif how == "size":
+            d["content"] = "x" * rng.choice([51, 500, 5000])
+        elif how == "kind":
+            d["kind"] = 4
+        elif how == "kind-ephemeral":
+            # an allowed kind all the same: only the signature check can tell
+            d["kind"] = 20001 if genuine["kind"] != 20001 else 1
+        elif how == "old":
+            d["created_at"] = NOW - 1001 - rng.randrange(1000)
+        elif how == "future":
+            d["created_at"] = NOW + 3601 + rng.randrange(1000)
+        elif how == "pubkey":
+            d["pubkey"] = self.bad.public_key.hex()
+        elif how == "hellthread":
+            d["kind"] = genuine["kind"] if genuine["kind"] in (1, 7) else 1
+            d["tags"] = [["p", "%064x" % (i + 1)] for i in range(4)]
+        else:
+            raise KeyError(how)
+        return d
+
+    # -- one group -----------------------------------------------------------------------------
+    def group(self, report, shape, payloads, stagger=0, backends=None):
+        """`payloads` submitted concurrently (member i starts after i*stagger turns of the loop) to the real add_event"""
+        expect = [own_verdict(p, self.c) for p in payloads]
+        for main, ref in self.pairs:
+            if backends and main.backend not in backends:
+                continue
+            replay = {"concurrent": payloads, "stagger": stagger, "backend": main.backend, "shape": shape,
+                      "validators": CONC_CHAIN, "config": vars(self.c), "clock": NOW}
+            del main.seen[:]
+
+            async def one(i, p):
+                for _ in range(i * stagger):
+                    await asyncio.sleep(0)
+                return await main.storage.add_event(dict(p))
+
+            async def go():
+                return await asyncio.gather(*[one(i, p) for i, p in enumerate(payloads)], return_exceptions=True)
+
+            results = main.run(go())
+            main.quiesce()
+            seq = [ref.add(dict(p)) for p in payloads]
+            others = "%d other submission(s) in flight" % (len(payloads) - 1)
+            for i, (p, res, want_bad, sq) in enumerate(zip(payloads, results, expect, seq)):
+                refused = isinstance(res, BaseException)
+                twins = sum(1 for j, q in enumerate(payloads) if j != i and q["id"] == p["id"] and q != p)
+                ctx = "member %d of %d, %s%s" % (i + 1, len(payloads), others,
+                                                 ", %d of them a different payload claiming the same id" % twins if twins else "")
+                if not want_bad and refused:
+                    report.property_failure("%s: an event that satisfies every configured validator was refused (%s: %s) when "
+                                            "submitted concurrently [%s]" % (main.backend, type(res).__name__, res, ctx), replay, None)
+                elif want_bad and not refused:
+                    report.property_failure("%s: an event violating %s was %s when submitted concurrently [%s]"
+                                            % (main.backend, "+".join(want_bad),
+                                               "acknowledged" if res[1] else "answered as a duplicate instead of being refused", ctx),
+                                            replay, None)
+                elif refused and not str(res):
+                    report.property_failure("%s: refusal without a reason [%s]" % (main.backend, ctx), replay, None)
+                elif refused and not sq["ok"] and sq["exc"] and str(res) != sq["reason"]:
+                    report.property_failure("%s: a violating event submitted concurrently was refused with %r; the same payload "
+                                            "submitted alone is refused with %r (the verdict of another submission?) [%s]"
+                                            % (main.backend, str(res), sq["reason"], ctx), replay, None)
+                # the sequential reference itself, against the independent statement
+                if bool(want_bad) != (not sq["ok"] and sq["exc"] is not None):
+                    report.property_failure("%s: submitted alone, an event %s was %s" % (
+                        main.backend, "violating " + "+".join(want_bad) if want_bad else "that satisfies every validator",
+                        "refused: " + sq["reason"] if sq["exc"] else "admitted"), replay, None)
+            admissible = [p for p, want_bad in zip(payloads, expect) if not want_bad]
+            for b in main.seen:
+                if b not in admissible:
+                    report.property_failure("%s: a payload that the validators refuse (or never saw) was broadcast: id %s kind %r "
+                                            "content length %d" % (main.backend, b["id"][:12], b["kind"], len(b["content"] or "")),
+                                            replay, None)
+                    break
+            for idhex in sorted({p["id"] for p in payloads}):
+                ev = main.get(idhex)
+                if ev is not None and _plain(ev.to_json_object()) not in admissible:
+                    report.property_failure("%s: stored under id %s is a payload that the validators refuse" % (main.backend, idhex[:12]),
+                                            replay, None)
+            # (the two stores accumulate: after a first difference every later comparison would repeat it)
+            dm, dr = (main.dump(), ref.dump()) if main.backend not in self.diverged else (None, None)
+            if dm != dr:
+                self.diverged.add(main.backend)
+                report.property_failure("%s: after the concurrent group the database differs from the one that received the same "
+                                        "payloads one after the other (a refused event left a trace, or an admitted one is missing)"
+                                        % main.backend, replay, None)
+            report.count("concurrent_%s_%s" % (shape, main.backend))
+        report.case(("concurrent", shape, stagger, tuple((p["id"], p["kind"], len(p["content"]), p["created_at"], p["pubkey"][:8],
+                                                          len(p["tags"])) for p in payloads)),
+                    nontrivial=any(expect), sample={"concurrent": shape, "members": len(payloads),
+                                                    "owed": ["refuse" if b else "admit" for b in expect]})
+
+
+def concurrent_cases(report, rng, tier):
+    rig = ConcurrentRig()
+    try:
+        # directed: a genuine event and one tampered copy of it, both orders, every kind of tampering, regular and ephemeral kinds
+        for kind in CONC_KINDS:
+            for how in FORGERIES:
+                g = rig.signed(rng, kind=kind)
+                f = rig.forged(rng, g, how)
+                rig.group(report, "genuine+copy", [g, f], stagger=0)
+                g = rig.signed(rng, kind=kind)
+                f = rig.forged(rng, g, how)
+                rig.group(report, "copy+genuine", [f, g], stagger=0)
+        # two tampered copies of an event that is itself never submitted: each is refused for its own reason
+        for a, b in [("size", "kind"), ("old", "size"), ("hellthread", "future"), ("pubkey", "content")]:
+            g = rig.signed(rng)
+            rig.group(report, "two-copies", [rig.forged(rng, g, a), rig.forged(rng, g, b)])
+        # the same payload twice (conforming, violating, tampered), and different events
+        for kind in CONC_KINDS:
+            g = rig.signed(rng, kind=kind)
+            rig.group(report, "same-twice", [g, dict(g)])
+        for v in SIGNED_VIOLATIONS:
+            x = rig.signed(rng, violation=v)
+            rig.group(report, "same-violating-twice", [x, dict(x)])
+            rig.group(report, "different", [rig.signed(rng), rig.signed(rng, violation=v)])
+            rig.group(report, "different", [rig.signed(rng, violation=v), rig.signed(rng)])
+        # random groups of 2..3 (thorough: up to 6) around one or two genuine events, in random order, gathered in one turn or
+        # staggered by a few turns of the loop
+        for i in range(60 if tier == "quick" else 1500):
+            n = rng.choice([2, 3, 3] if tier == "quick" else [2, 3, 3, 4, 5, 6])
+            base = [rig.signed(rng), rig.signed(rng)]
+            members = []
+            for _ in range(n):
+                g = rng.choice(base[:1] * 3 + base[1:])
+                what = rng.choice(["genuine", "genuine", "copy", "copy", "copy", "violating", "fresh"])
+                if what == "genuine":
+                    members.append(dict(g))
+                elif what == "copy":
+                    members.append(rig.forged(rng, g, rng.choice(FORGERIES)))
+                elif what == "violating":
+                    members.append(rig.signed(rng, violation=rng.choice(SIGNED_VIOLATIONS)))
+                else:
+                    members.append(rig.signed(rng))
+            rig.group(report, "random", members, stagger=rng.choice([0, 0, 1, 3]))
+    finally:
+        rig.close()
+
+
 # ---- dynamic lists ---------------------------------------------------------------------------------
 
 class ProbedSet(set):
@@ -390,7 +658,11 @@ def run(report, tier, seed):
         "every validator at bound-1/bound/bound+1 and beyond (content length, age both ways, kinds, lists, PoW bits, p-tag "
         "count for kinds 1/7/other with limit 0/3, service kind) under an injected clock; the dynamic allow / deny validator over every "
         "pair of subsets of three keys (overlapping lists included) x author; the real pipeline of six "
-        "validators through add_event on both backends with one or two violated policies; dynamic list refreshes with an "
+        "validators through add_event on both backends with one or two violated policies; groups of 2..3 (thorough: ..6) "
+        "submissions gathered in one event-loop turn (or staggered by a few turns) on both backends — a genuine event next to "
+        "tampered copies that claim its id (every kind of tampering, both orders, regular and ephemeral kinds), the same payload "
+        "twice, different conforming / violating events — each member owed the verdict and reason of its own payload, compared "
+        "with an independent statement and with a reference store that receives the same payloads sequentially; dynamic list refreshes with an "
         "instrumented set (probe before/after every set operation and at every await of the query loop), old list empty / "
         "non-empty, new result empty / several chunks, static whitelist on/off, deny list on/off")
     report.assumptions += ["GIL-level atomicity of a single set method is trusted (the probe looks between methods)",
@@ -403,6 +675,7 @@ def run(report, tier, seed):
         validator_cases(report, drv)
         dynamic_verdict_cases(report, drv)
         pipeline_cases(report, rng, tier)
+        concurrent_cases(report, rng, tier)
         keys = [("%02x" % i) * 32 for i in range(1, 9)]
         for i in range(60 if tier == "quick" else 1500):
             old = rng.sample(keys, rng.choice([0, 1, 2, 3]))
@@ -429,6 +702,12 @@ def replay(report, path):
             r = it.get("replay") or it.get("input")
             if "allow_old" in r:
                 dynamic_case(report, drv, rng, r["allow_old"], r["allow_new"], r["deny_new"], r["whitelist"], r["outsider"])
+            elif "concurrent" in r:
+                rig = ConcurrentRig()
+                try:
+                    rig.group(report, r.get("shape", "replay"), r["concurrent"], stagger=r.get("stagger", 0), backends=[r["backend"]])
+                finally:
+                    rig.close()
             else:
                 validator_cases(report, drv)
     finally:
